@@ -2,6 +2,8 @@ package harness
 
 import (
 	"fmt"
+	"os"
+	"runtime/debug"
 	"strconv"
 	"strings"
 	"time"
@@ -95,6 +97,8 @@ func classifyPanic(r interface{}) string {
 		return "panic neg_coin"
 	case strings.Contains(s, "Int overflow"):
 		return "panic overflow"
+	case strings.Contains(s, "Int64() out of bound"):
+		return "panic power_overflow" // sdk.TokensToConsensusPower: validator tokens / 10^6 beyond int64
 	case strings.Contains(s, "nil pointer") || strings.Contains(s, "invalid memory address"):
 		return "panic nil"
 	}
@@ -107,6 +111,9 @@ func protect(f func() error) (res string, detail string) {
 		if r := recover(); r != nil {
 			res = classifyPanic(r)
 			detail = fmt.Sprint(r)
+			if os.Getenv("VERIF_STACK") != "" {
+				fmt.Fprintf(os.Stderr, "panic %v\n%s\n", r, debug.Stack())
+			}
 		}
 	}()
 	err := f()
